@@ -762,10 +762,10 @@ func bgGenHPAs(c *Ctx) ([]bgHPA, []bgHPA) {
 			l = append(l, distractor())
 		}
 		if absent {
-			// a scaleTargetRef without apiVersion (legal for the API server): never together with a
-			// matching HPA in the same list, so that the outcome does not depend on the list order
+			// a scaleTargetRef without apiVersion (legal for the API server; read as "" it matches no workload)
 			l = append(l, bgHPA{AV: "absent", Kind: pickS(c, "same", "other"), Name: pickInt(c, -1, 0)})
-		} else if match {
+		}
+		if match {
 			k := 0
 			if c.Rng.Intn(6) == 0 {
 				k = 1 + c.Rng.Intn(2)
